@@ -4,7 +4,7 @@ from common import *
 
 ID = "C37"
 GEN = []
-THEOREMS = ["C37_namespace", "C37_refuted_namespace", "C37_forward_filter", "C37_show_hide",
+THEOREMS = ["C37_namespace", "C37_last_segment", "C37_forward_filter", "C37_show_hide",
             "C37_forwarded_builtin", "C37_forwarded_builtin_plain_guard", "C37_refuted_forwarded_builtin", "C37_with_default_only", "C37_refuted_with", "C37_config_twice", "C37_builtin_guard"]
 COQ_HEADER = ("From Coq Require Import String List ZArith.\nFrom RV Require Import Model.EvModule Run.C37.\n"
               "Import ListNotations.\nLocal Open Scope string_scope.")
@@ -283,7 +283,7 @@ def coq_term(c, io):
     return f"(mkCase {input_term(c)} {impl_term(c, io)})"
 
 
-KCLASS = {0: None, 1: "known_C37_K1_namespace_raw_segment", 2: "known_C37_K2_with_not_default",
+KCLASS = {0: None, 2: "known_C37_K2_with_not_default",
           4: "known_C37_K4_forwarded_builtin_guard"}
 KIND = {1: "namespace", 2: "forward-filter", 3: "with-config", 4: "builtin-guard", 5: "forwarded-builtin"}
 
@@ -322,8 +322,8 @@ def shrink(c):
             yield dict(c, cfg=c["cfg"][:i] + c["cfg"][i + 1:])
 
 
-LEVEL_TEXT = ("proof: the model of do_use's default namespace equals the reference namespace for every URL whose last segment has no "
-              "leading underscore and no extension (refuted otherwise); ScopeRef::expose equals the reference show/hide filter for all "
+LEVEL_TEXT = ("proof: the model of do_use's default namespace is the base name for every directory part, base name, optional partial "
+              "underscore and optional .scss/.sass/.css extension (F33 fixed by 18a59ef); ScopeRef::expose equals the reference show/hide filter for all "
               "member sets, prefixes and lists (F29 fixed by 2f8ada8); `with` "
               "configuration equals the reference for every module and every configuration of !default variables (refuted for "
               "non-default/unknown names), twice-configured is an error; tied to rsass by correspondence on generated module graphs")
